@@ -11,6 +11,7 @@ import (
 
 	"github.com/Vedant9500/WTF/internal/history"
 	"github.com/Vedant9500/WTF/verifharness/gen"
+	"github.com/Vedant9500/WTF/verifharness/proc"
 	"github.com/Vedant9500/WTF/verifharness/stat"
 	"pgregory.net/rapid"
 )
@@ -321,5 +322,92 @@ func TestC16_File(t *testing.T) {
 		}
 		_ = jsonish
 		rec.Case(valid, map[string]any{"file": clip(string(data)), "valid_json": valid}, labels...)
+	})
+}
+
+// TestC16_CLIViews: the `wtf history` views agree with the searches actually made.
+func TestC16_CLIViews(t *testing.T) {
+	needWtf(t)
+	rec := stat.For("C16")
+	rec.Rule("(C) built binary: 1-8 searches from a pool of 4 queries (with immediate repeats) in an isolated HOME, then `wtf history`, `--stats`, `--top`, a pattern, `--clear`. Oracle: recent view = distinct queries newest first; stats totals = reference log; top counts = reference frequencies and sum to the entry count; pattern view lists exactly the matching entries; after --clear the history is empty.")
+	rapid.Check(t, func(t *rapid.T) {
+		dir := mkdirWork("c16cli-")
+		defer os.RemoveAll(dir)
+		h, _ := proc.NewHome(dir)
+		dbp := dir + "/db.yml"
+		os.WriteFile(dbp, gen.EmitYAML(c08Main), 0o644)
+		pool := []string{"list directory", "compress", "disk usage", "zzqx nothing"}
+		var log []string
+		for i := rapid.IntRange(1, 8).Draw(t, "searches"); i > 0; i-- {
+			q := rapid.SampledFrom(pool).Draw(t, "q")
+			if len(log) > 0 && rapid.IntRange(0, 3).Draw(t, "repeat") == 0 {
+				q = log[len(log)-1]
+			}
+			r := runWtf(h, dir, []string{"--no-color", "-d", dbp, "--", q})
+			if r.Panicked() || !strings.Contains(r.Stdout, "Searching for: "+q) {
+				t.Fatalf("search %q failed: %s", q, clip(r.Stdout))
+			}
+			if len(log) > 0 && log[len(log)-1] == q {
+				continue // immediate repeat updates the last entry
+			}
+			log = append(log, q)
+		}
+		freq := map[string]int{}
+		var recent []string
+		seen := map[string]bool{}
+		for i := len(log) - 1; i >= 0; i-- {
+			freq[log[i]]++
+			if !seen[log[i]] {
+				seen[log[i]] = true
+				recent = append(recent, log[i])
+			}
+		}
+		out := runWtf(h, dir, []string{"history", "--limit", "50"}).Stdout
+		var shown []string
+		for _, l := range strings.Split(out, "\n") {
+			if m := numbered.FindStringSubmatch(l); m != nil {
+				shown = append(shown, m[2])
+			}
+		}
+		if fmt.Sprint(shown) != fmt.Sprint(recent) {
+			t.Fatalf("`wtf history` shows %q, searches made (distinct, newest first) %q\n%s", shown, recent, out)
+		}
+		st := runWtf(h, dir, []string{"history", "--stats"}).Stdout
+		if !strings.Contains(st, fmt.Sprintf("Total searches: %d\n", len(log))) || !strings.Contains(st, fmt.Sprintf("Unique queries: %d\n", len(freq))) {
+			t.Fatalf("`wtf history --stats` disagrees with %d entries / %d unique queries:\n%s", len(log), len(freq), st)
+		}
+		top := runWtf(h, dir, []string{"history", "--top", "--limit", "50"}).Stdout
+		sum := 0
+		for q, n := range freq {
+			if !strings.Contains(top, fmt.Sprintf("\"%s\" (%d times", q, n)) {
+				t.Fatalf("`wtf history --top` does not list %q with %d times:\n%s", q, n, top)
+			}
+			sum += n
+		}
+		if sum != len(log) {
+			t.Fatalf("harness: frequency sum")
+		}
+		pat := runWtf(h, dir, []string{"history", "--limit", "50", "--", "dis"}).Stdout
+		wantPat := 0
+		for _, q := range log {
+			if strings.Contains(q, "dis") {
+				wantPat++
+			}
+		}
+		gotPat := 0
+		for _, l := range strings.Split(pat, "\n") {
+			if numbered.MatchString(l) {
+				gotPat++
+			}
+		}
+		if gotPat != wantPat {
+			t.Fatalf("`wtf history dis` lists %d entries, %d searches contain \"dis\":\n%s", gotPat, wantPat, pat)
+		}
+		cl := runWtf(h, dir, []string{"history", "--clear"}).Stdout
+		after := runWtf(h, dir, []string{"history"}).Stdout
+		if !strings.Contains(cl, "cleared") || !strings.Contains(after, "No search history found") {
+			t.Fatalf("after --clear the history is not empty:\n%s\n%s", cl, after)
+		}
+		rec.Case(len(log) >= 2, map[string]any{"cli_views": true, "log": log}, "cli-views")
 	})
 }
